@@ -165,4 +165,168 @@ theorem qbits_resid_isF32 (t : Tie) (c : BitsCfg) (a : ℤ) (x : ℚ) (hub : 0 <
   · refine ⟨rc t P c.lo c.hi, ?_⟩
     rw [hq, pow2_add]; unfold BitsCfg.step; ring
 
+
+/-! ### generic residual of a round-then-clip on the lattice `2^σ ℤ` -/
+
+theorem sq_resid_isF32 (t : Tie) {x : ℚ} (hx : isF32 x = true) {σ : ℤ} (hσ : -149 ≤ σ)
+    {lo hi : ℤ} (hlo : lo ≤ 0) (hhi : 0 ≤ hi) (henv : |x| < pow2 24 * pow2 σ) :
+    isF32 (((rc t (x / pow2 σ) lo hi : ℤ) : ℚ) * pow2 σ - x) = true := by
+  have hs := pow2_pos σ
+  obtain ⟨P, hP⟩ : ∃ P, P = x / pow2 σ := ⟨_, rfl⟩
+  have hxP : x = P * pow2 σ := by rw [hP]; field_simp
+  rw [← hP]
+  apply resid_isF32 hx hσ ⟨_, rfl⟩
+  · have h1 := rc_resid_le t P hlo hhi
+    rw [hxP, ← sub_mul, abs_mul, abs_mul, abs_of_pos hs]
+    exact mul_le_mul_of_nonneg_right h1 hs.le
+  · rw [add_comm, pow2_add]; exact henv
+
+/-! ### quantized_linear -/
+
+theorem LinCfg.lo_nonpos (c : LinCfg) : c.lo ≤ 0 := by
+  unfold LinCfg.lo
+  have := tp_ge_one c.ub
+  rw [twoPow_eq_tp]
+  split <;> (try split) <;> omega
+
+theorem LinCfg.hi_nonneg (c : LinCfg) : 0 ≤ c.hi := by
+  unfold LinCfg.hi; have := tp_ge_one c.ub; rw [twoPow_eq_tp]; omega
+
+theorem LinCfg.code_abs_le (c : LinCfg) (h24 : c.ub ≤ 24) {k : ℤ} (h1 : c.lo ≤ k) (h2 : k ≤ c.hi) :
+    |k| ≤ 2 ^ 24 := by
+  have h3 := tp_le_24 h24
+  have h4 := tp_ge_one c.ub
+  unfold LinCfg.lo at h1; unfold LinCfg.hi at h2
+  rw [twoPow_eq_tp] at h1 h2
+  rw [abs_le]
+  constructor
+  · split at h1 <;> (try split at h1) <;> omega
+  · omega
+
+theorem fclip_cases (v : ℚ) {lo hi : ℚ} (h : lo ≤ hi) :
+    (fclip v lo hi = v ∧ lo ≤ v ∧ v ≤ hi) ∨ (fclip v lo hi = lo ∧ v < lo) ∨
+      (fclip v lo hi = hi ∧ hi < v) := by
+  unfold fclip
+  rcases lt_or_ge hi v with a | a
+  · right; right
+    simp only [if_pos a, if_neg (not_lt.mpr h)]
+    exact ⟨trivial, a⟩
+  · rcases lt_or_ge v lo with b | b
+    · right; left
+      simp only [if_neg (not_lt.mpr a), if_pos b]
+      exact ⟨trivial, b⟩
+    · left
+      simp only [if_neg (not_lt.mpr a), if_neg (not_lt.mpr b)]
+      exact ⟨trivial, b, a⟩
+
+theorem rnd32_sub_zero {y : ℚ} (h : isF32 y = true) : fsub y 0 = y := by
+  unfold fsub; rw [sub_zero, rnd32_of_isF32 h]
+theorem rnd32_add_zero {y : ℚ} (h : isF32 y = true) : fadd y 0 = y := by
+  unfold fadd; rw [add_zero, rnd32_of_isF32 h]
+
+/-- `x / qs`, clip, `- 0.0`, `_round_through`, `+ 0.0` in float32 yield the exact code -/
+theorem linear_codeF (t : Tie) {x : ℚ} (hx : isF32 x = true) (σ : ℤ)
+    (ho : |x / pow2 σ| < pow2 128) {lo hi : ℤ} (hlo : lo ≤ 0) (hhi : 0 ≤ hi)
+    (hlo24 : |lo| ≤ 2 ^ 24) (hhi24 : |hi| ≤ 2 ^ 24) :
+    fadd (roundThroughF t (fsub (fclip (fdiv x (pow2 σ)) (lo : ℚ) (hi : ℚ)) 0)) 0
+      = ((rc t (x / pow2 σ) lo hi : ℤ) : ℚ) := by
+  have hlh : lo ≤ hi := le_trans hlo hhi
+  have hlhq : (lo : ℚ) ≤ (hi : ℚ) := by exact_mod_cast hlh
+  have e : x / pow2 σ = x * pow2 (-σ) := by rw [pow2_neg]; ring
+  unfold fdiv
+  rw [e] at ho ⊢
+  have fin : ∀ y : ℚ, isF32 y = true →
+      fadd (roundThroughF t (fsub y 0)) 0 = ((roundTie t y : ℤ) : ℚ) := by
+    intro y hy
+    rw [rnd32_sub_zero hy, roundThroughF_eq t hy, rnd32_add_zero (roundTie_isF32 t hy)]
+  rcases rnd32_scale_cases hx (-σ) ho with ⟨h1, h2⟩ | ⟨h1, h2, h3⟩
+  · rw [h2]
+    set S := x * pow2 (-σ) with hS
+    rcases fclip_cases S hlhq with ⟨e1, b1, b2⟩ | ⟨e1, b⟩ | ⟨e1, b⟩
+    · rw [e1, fin S h1, rc_inrange t b1 b2]
+    · rw [e1, fin _ (isF32_int hlo24), roundTie_int, rc_sat_lo t hlh b.le]
+    · rw [e1, fin _ (isF32_int hhi24), roundTie_int, rc_sat_hi t hlh b.le]
+  · have hh := pow2_m125_lt_half
+    set S := x * pow2 (-σ) with hS
+    set s' := rnd32 S with hs'
+    have hS0 : roundTie t S = 0 := roundTie_small t (lt_trans h1 hh)
+    have hrc : rc t S lo hi = 0 := by
+      unfold rc; rw [hS0]; exact iclip_id hlo hhi
+    have hs1 : |s'| < 1 / 2 := lt_of_le_of_lt h3 hh
+    rw [hrc]
+    rw [abs_lt] at hs1
+    rcases fclip_cases s' hlhq with ⟨e1, _, _⟩ | ⟨e1, b⟩ | ⟨e1, b⟩
+    · rw [e1, fin s' h2, roundTie_small t (abs_lt.mpr hs1)]
+    · -- s' < lo ≤ 0 with |s'| < 1/2 forces lo = 0
+      have : lo = 0 := by
+        have : (-1 : ℚ) < (lo : ℚ) := by linarith
+        have : (-1 : ℤ) < lo := by exact_mod_cast this
+        omega
+      rw [e1, this]; simp only [Int.cast_zero]
+      rw [fin 0 isF32_zero]
+      have := roundTie_int t 0; simpa using this
+    · have : hi = 0 := by
+        have : (hi : ℚ) < 1 := by linarith
+        have : hi < 1 := by exact_mod_cast this
+        omega
+      rw [e1, this]; simp only [Int.cast_zero]
+      rw [fin 0 isF32_zero]
+      have := roundTie_int t 0; simpa using this
+
+/-- the return `x + 1·(xq − x)` of quantized_linear -/
+theorem steF'_eq {x xq : ℚ} (h1 : isF32 xq = true) (h2 : isF32 (xq - x) = true) :
+    fadd x (fmul 1 (fsub xq x)) = xq := by
+  unfold fadd fmul fsub
+  rw [rnd32_of_isF32 h2, one_mul, rnd32_of_isF32 h2]
+  have : x + (xq - x) = xq := by ring
+  rw [this, rnd32_of_isF32 h1]
+
+theorem qsF_eq {s a : ℤ} (ha1 : -149 ≤ a) (ha2 : a ≤ 103) (h1 : -149 ≤ s + a) (h2 : s + a ≤ 103) :
+    fmul (rnd32 (pow2 a)) (pow2 s) = pow2 (s + a) := by
+  unfold fmul
+  rw [rnd32_of_isF32 (isF32_pow2 ha1 ha2), mul_comm, ← pow2_add, rnd32_of_isF32 (isF32_pow2 h1 h2)]
+
+/-- float32 `quantized_linear` (not the sign function) equals the exact model on
+    `|x| < 2^24 · quantization_scale`; `alpha` any power of two in range. -/
+theorem qlinearF_eq (t : Tie) (c : LinCfg) (a : ℤ) (x : ℚ)
+    (hsf : c.signFn = false) (hub : 0 ≤ c.ub) (hub24 : c.ub ≤ 24)
+    (ha : (c.alpha = none ∧ a = 0) ∨ c.alpha = some (pow2 a)) (ha1 : -149 ≤ a) (ha2 : a ≤ 103)
+    (hσ1 : -149 ≤ c.integer - c.ub + a) (hσ2 : c.integer - c.ub + a ≤ 103)
+    (hx : isF32 x = true) (henv : |x| < pow2 24 * c.qs) : qlinearF t c x = qlinear t c x := by
+  have hqs : c.qs = pow2 (c.integer - c.ub + a) := by
+    unfold LinCfg.qs
+    rcases ha with ⟨h1, h2⟩ | h1
+    · rw [h1, h2]; simp
+    · rw [h1, pow2_add]; simp [mul_comm]
+  have hqsF : c.qsF = pow2 (c.integer - c.ub + a) := by
+    unfold LinCfg.qsF
+    rcases ha with ⟨h1, h2⟩ | h1
+    · rw [h1, h2]; simp
+    · rw [h1]; exact qsF_eq ha1 ha2 hσ1 hσ2
+  rw [hqs] at henv
+  have hs0 := pow2_pos (c.integer - c.ub + a)
+  have ho : |x / pow2 (c.integer - c.ub + a)| < pow2 128 := by
+    rw [abs_div, abs_of_pos hs0, div_lt_iff₀ hs0]
+    have : pow2 24 * pow2 (c.integer - c.ub + a) ≤ pow2 128 * pow2 (c.integer - c.ub + a) :=
+      mul_le_mul_of_nonneg_right (pow2_le_pow2 (by norm_num)) hs0.le
+    linarith
+  obtain ⟨hb1, hb2⟩ := rc_bounds t (x / pow2 (c.integer - c.ub + a)) c.lo_le_hi
+  have hC := c.code_abs_le hub24 hb1 hb2
+  rw [qlinear_eq_sq t c hsf, hqs]
+  unfold qlinearF
+  dsimp only
+  rw [hqsF, clipLoF_eq hub hub24, clipHiF_eq hub hub24]
+  have e1 : ((if c.keepNeg then -twoPow c.ub + (if c.symmetric then 1 else 0) else 0 : ℤ)) = c.lo := rfl
+  have e2 : (twoPow c.ub - 1 : ℤ) = c.hi := rfl
+  rw [e1, e2]
+  rw [linear_codeF t hx _ ho c.lo_nonpos c.hi_nonneg
+    (c.code_abs_le hub24 le_rfl c.lo_le_hi) (c.code_abs_le hub24 c.lo_le_hi le_rfl)]
+  have hxq := isF32_int_mul_pow2 hC hσ1 hσ2
+  have hmul : fmul ((rc t (x / pow2 (c.integer - c.ub + a)) c.lo c.hi : ℤ) : ℚ)
+      (pow2 (c.integer - c.ub + a))
+      = ((rc t (x / pow2 (c.integer - c.ub + a)) c.lo c.hi : ℤ) : ℚ) * pow2 (c.integer - c.ub + a) := by
+    unfold fmul; exact rnd32_of_isF32 hxq
+  rw [hmul]
+  exact steF'_eq hxq (sq_resid_isF32 t hx hσ1 c.lo_nonpos c.hi_nonneg henv)
+
 end QKV
